@@ -68,10 +68,17 @@ def unk(hbh=61, e2e=62, host="peer1.x", flags=128, cmd="UN", with_oh=True, realm
     return f"{cmd}:{flags}:4:{hbh}:{e2e}:sid=s;9,{oh}or={REALM},dr={realm}"
 
 
-def message_pool(rng: random.Random, hosts=("peer1.x", "peer2.x")) -> list[str]:
+_uniq = [100]
+
+
+def message_pool(rng: random.Random, hosts=("peer1.x", "peer2.x"), unique=False) -> list[str]:
     h = rng.choice(hosts)
     hb = rng.choice([11, 12, 13, 2001, 2002, 3001])
     ee = rng.choice([21, 22, 23, 268435464, 268435465])
+    if unique:
+        _uniq[0] += 1
+        hb = _uniq[0]
+        ee = rng.choice([ee, 5000 + _uniq[0]])
     return [
         cer(h, "4", hb, ee), cer("stranger.x", "4", hb, ee), cer(h, "99", hb, ee), cer(h, "4294967295", hb, ee),
         cer(None, "4", hb, ee), cer(h.upper(), "4+3", hb, ee),
@@ -86,8 +93,11 @@ def message_pool(rng: random.Random, hosts=("peer1.x", "peer2.x")) -> list[str]:
     ]
 
 
-def random_scenario(rng: random.Random, cfg_name: str, depth: int) -> str:
+def random_scenario(rng: random.Random, cfg_name: str, depth: int, unique=False, handshake=0.0) -> str:
+    """unique: fresh hop-by-hop id per generated message; handshake: probability
+    that a freshly accepted connection immediately gets a valid CER."""
     cfg = CONFIGS[cfg_name]
+    _uniq[0] = 100
     evs = []
     persistent = cfg_name in ("out", "noapp")
     plans = ["ok", "inp", "fail"]
@@ -99,11 +109,14 @@ def random_scenario(rng: random.Random, cfg_name: str, depth: int) -> str:
         c = rng.randrange(0, max(1, nconn + (2 if persistent else 0)))
         if k < 0.12:
             evs.append("acc")
+            if rng.random() < handshake:
+                _uniq[0] += 1
+                evs.append(f"rx {nconn + (2 if persistent else 0) if False else nconn} " + cer(rng.choice(["peer1.x", "peer2.x"]), "4+3", _uniq[0], 9000 + _uniq[0]))
             nconn += 1
         elif k < 0.62:
-            msgs = [rng.choice(message_pool(rng))]
+            msgs = [rng.choice(message_pool(rng, unique=unique))]
             if rng.random() < 0.15:
-                msgs.append(rng.choice(message_pool(rng)))
+                msgs.append(rng.choice(message_pool(rng, unique=unique)))
             evs.append(f"rx {c} " + " ".join(msgs))
         elif k < 0.74:
             evs.append(f"adv {rng.choice([1, 2, 3, 4, 5, 6, 9, 11, 31])}")
